@@ -222,12 +222,26 @@ Fixpoint all_some {A} (l : list (option A)) : option (list A) :=
   | Some a :: l' => match all_some l' with Some r => Some (a :: r) | None => None end
   end.
 
-(* step 3 + default handling *)
+(* step 3 + default handling.
+   Several source vector nodes: tvar = t_in0 + t_in1 + ...; the buffers are zero-initialised, except that (fix D57) the
+   FIRST buffer carries the declared default on the units that no edge of any source reaches (`covered` = union of all
+   target_idx lists).  Before D57 all buffers were zeros: `input_of_before_D57` (D14: an unconnected unit got 0). *)
+Definition assigned (u : nat) (a : assoc) : bool := match lookup a u with Some _ => true | None => false end.
+Definition buffers_sum (cs : list assoc) (u : nat) : Qc :=
+  qsum (map (fun a => match lookup a u with Some v => v | None => 0 end) cs).
+
 Definition input_of (cs : list assoc) (rdef : Qc) (u : nat) : Qc :=
   match cs with
   | [] => rdef                                              (* no edge operator: constant argument *)
   | [a] => match lookup a u with Some v => v | None => rdef end     (* t_str = tvar: buffer initialised with defaults *)
-  | _ => qsum (map (fun a => match lookup a u with Some v => v | None => 0 end) cs)   (* zero buffers: D14 *)
+  | _ => buffers_sum cs u + (if existsb (assigned u) cs then 0 else rdef)
+  end.
+
+Definition input_of_before_D57 (cs : list assoc) (rdef : Qc) (u : nat) : Qc :=
+  match cs with
+  | [] => rdef
+  | [a] => match lookup a u with Some v => v | None => rdef end
+  | _ => buffers_sum cs u
   end.
 
 (* right-hand side that collapses to a constant once like terms are collected (sympy Add) *)
@@ -248,7 +262,8 @@ Definition compile (vec : bool) (c : circuit) : compiled :=
   Compiled vn ix (group_edges ix (cedges c)).
 
 (* input values of all units of target vector node tj *)
-Definition vn_inputs (vec : bool) (c : circuit) (st : list Qc) (k : compiled) (tj : nat) : option (list Qc) :=
+Definition vn_inputs_gen (inp : list assoc -> Qc -> nat -> Qc) (vec : bool) (c : circuit) (st : list Qc) (k : compiled) (tj : nat)
+  : option (list Qc) :=
   let mem_t := members (cvn k) tj in
   let tsize := if vec then length mem_t else 0%nat in
   let ml := merged tj (cgroups k) in
@@ -256,17 +271,20 @@ Definition vn_inputs (vec : bool) (c : circuit) (st : list Qc) (k : compiled) (t
             let mem_s := members (cvn k) (msrc m) in
             contrib tsize (length mem_s) m (fun i => srcval c st (nth i mem_s 0%nat) (msv m))) ml) with
   | None => None
-  | Some cs => Some (map (fun u => input_of cs (crdef (node_cls c (nth u mem_t 0%nat))) u) (seq 0 (length mem_t)))
+  | Some cs => Some (map (fun u => inp cs (crdef (node_cls c (nth u mem_t 0%nat))) u) (seq 0 (length mem_t)))
   end.
+Definition vn_inputs := vn_inputs_gen input_of.
 
-Definition impl (vec : bool) (c : circuit) (st : list Qc) : option (list Qc) :=
+Definition impl_gen (inp : list assoc -> Qc -> nat -> Qc) (vec : bool) (c : circuit) (st : list Qc) : option (list Qc) :=
   let k := compile vec c in
   if existsb (vn_err c) (cvn k) then None
-  else match all_some (map (vn_inputs vec c st k) (seq 0 (length (cvn k)))) with
+  else match all_some (map (vn_inputs_gen inp vec c st k) (seq 0 (length (cvn k)))) with
        | None => None
        | Some rv => Some (map (fun n => let '(j, i) := cidx k n in
                                         deriv_at c st n (nth i (nth j rv []) 0)) (seq 0 (length (cnodes c))))
        end.
+Definition impl := impl_gen input_of.                              (* the code as it is now *)
+Definition impl_before_D57 := impl_gen input_of_before_D57.        (* the code before fix D57 (D14) *)
 
 (* explicit Euler on the frontend state with either derivative *)
 Definition euler_step (h : Qc) (st d : list Qc) : list Qc := map (fun p => fst p + h * snd p) (combine st d).
@@ -300,7 +318,7 @@ Definition count_cls (c : circuit) (ci : nat) : nat := length (filter (fun nd =>
 Definition src_classes (c : circuit) (ci : nat) : list nat :=
   sort_u (map (fun e => cls_of c (esrc e)) (filter (fun e => cls_of c (etgt e) =? ci) (cedges c))).
 
-(* D14: an unconnected unit of a class fed by >= 2 source classes must have default 0 *)
+(* D14 (repaired by D57; no longer part of `guard`): an unconnected unit of a class fed by >= 2 source classes must have default 0 *)
 Definition default_survives (c : circuit) : bool :=
   forallb (fun u => negb (length (filter (into u) (cedges c)) =? 0) || Qc_eqb (crdef (node_cls c u)) 0 ||
                     (length (src_classes c (cls_of c u)) <? 2)) (seq 0 (length (cnodes c))).
@@ -323,7 +341,7 @@ Definition no_scalar_fanout (c : circuit) : bool :=
                     negb (nodupb (pair_targets c e))) (cedges c).
 
 Definition guard (c : circuit) : bool :=
-  default_survives c && no_constant_rhs c && single_source_var c && no_scalar_fanout c.
+  no_constant_rhs c && single_source_var c && no_scalar_fanout c.
 
 (* ------------------------------------------------------------------------------------------ comparison glue *)
 Fixpoint qlist_eqb (a b : list Qc) : bool :=
